@@ -317,6 +317,7 @@ pub struct Baseline {
     pub live_blocks: usize,
     pub live_bytes: usize,
     pub block_idx: usize,
+    pub reg_idx: usize,
 }
 impl Baseline {
     pub fn take() -> Self {
@@ -325,6 +326,7 @@ impl Baseline {
             live_blocks: env::live_block_count(),
             live_bytes: env::live_bytes(),
             block_idx: env::block_count(),
+            reg_idx: env::reg_len(),
         }
     }
 }
